@@ -152,6 +152,8 @@ class NonBondEngine():
         and position tree.
         """
         gndx = self.nodes_to_gndx[(mol_idx, node_key)]
+        if gndx in self.gndx_to_tree:
+            self.remove_positions(mol_idx, [node_key])
         self.positions[gndx] = point
 
         # at around 5000 coordinates it is faster to make a new tree than to add the
